@@ -102,6 +102,14 @@ def integrands(W):
         "missing_argument": (u("+") * v, True),
         "missing_grad": (dot(grad(u), grad(v)("+")), True),
         "missing_normal": (dot(w("+"), n) * v("+"), True),
+        # facet quantities defined relative to ONE cell (reference normal, cell-facet Jacobian, ...) and cell
+        # quantities differ between the two sides: unrestricted use must be rejected
+        "missing_reference_normal": (C.ReferenceNormal(W["dom"])[0] * v("+"), True),
+        "missing_cell_facet_jacobian": ((C.CellFacetJacobian(W["dom"])[0, 0] if W["dom"].topological_dimension >= 2 else C.ReferenceNormal(W["dom"])[0]) * v("+"), True),
+        "missing_cell_facet_origin": (C.CellFacetOrigin(W["dom"])[0] * v("+"), True),
+        "missing_cell_volume": (C.CellVolume(W["dom"]) * v("+"), True),
+        "missing_jacobian": (C.Jacobian(W["dom"])[0, 0] * v("+"), True),
+        "missing_circumradius": (C.Circumradius(W["dom"]) * v("-"), True),
         "double": ((d("+") * v("+"))("-"), True),
         "double_nested": ((u * d("-"))("+") * v("+"), True),
     }
